@@ -1,3 +1,5 @@
+import torch
+
 from kappadata.datasets.kd_wrapper import KDWrapper
 from kappadata.utils.one_hot import to_one_hot_vector
 
@@ -5,4 +7,8 @@ from kappadata.utils.one_hot import to_one_hot_vector
 class OneHotWrapper(KDWrapper):
     def getitem_class(self, idx, ctx=None):
         y = self.dataset.getitem_class(idx, ctx)
-        return to_one_hot_vector(y, n_classes=self.dataset.getdim_class())
+        n_classes = self.dataset.getdim_class()
+        # semi supervised case (missing labels have no one-hot vector -> keep them marked like LabelSmoothingWrapper)
+        if (isinstance(y, int) or (torch.is_tensor(y) and y.ndim == 0)) and y == -1:
+            return torch.full(size=(n_classes,), fill_value=-1.)
+        return to_one_hot_vector(y, n_classes=n_classes)
